@@ -448,5 +448,205 @@ theorem requiredNonnegativeInt_ok (h : Inv b f lr) : Wp (Err b f) requiredNonneg
     (fun v lr1 => Inv b f lr1 ∧ lr.v.pos < lr1.v.pos ∧ v < 2 ^ 64) :=
   orGiveUp_line (nonnegativeInt_ok h)
 
+/-! ### comments, symbols, end of file -/
+
+/-- `advance_with_buf(n)` over scanned bytes that are not newlines. -/
+theorem Wp.advBuf {n : Nat} (e : Ext lr0 lr) (h : Inv b f lr0)
+    (hn : n ≤ lr0.v.rest.length) (hp : lr0.v.pos + n ≤ lr.v.peeked)
+    (hlf : AllAt (· ≠ 10) lr0.v.rest 0 n) :
+    Wp E (PM.advanceWithBuf n) lr (fun bs lr1 => bs = lr0.v.rest.take n ∧ Inv b f lr1 ∧ Fwd lr0 lr1 ∧
+      lr1.v.pos = lr0.v.pos + n) := by
+  unfold PM.advanceWithBuf
+  refine Wp.bind (Wp.bufPrefixF e hn hp ?_)
+  refine Wp.bind' (Wp.adv e h hn hp hlf) ?_
+  intro _ lr1 ⟨i1, f1, p1, _, _⟩
+  exact Wp.pure ⟨rfl, i1, f1, p1⟩
+
+/-- Taking a (not pending) I/O error leaves a state that differs only in look-ahead terms. -/
+theorem ext_clearIoErr (e : Ext lr0 lr) (hio : lr.v.ioErr = false) :
+    Ext lr0 { lr with v := { lr.v with ioErr := false } } :=
+  ⟨e.rest, e.pos, e.mark, e.line, e.lineStart, e.peeked, e.fault, fun hF => by
+    obtain ⟨f1, f2⟩ := e.finv hF
+    refine ⟨fun hf hs => ?_, fun hh => by simp at hh⟩
+    have := f1 hf hs
+    rw [hio] at this; exact absurd this (by simp)⟩
+
+/-- `comment_body` (after F10): up to the newline, which is not consumed; a body that ends with the
+input reports the parked I/O error. -/
+theorem commentBody_ok (h : Inv b f lr) :
+    Wp (Err b f) commentBody lr (fun _ lr1 => Inv b f lr1 ∧ Fwd lr lr1) := by
+  unfold commentBody
+  refine Wp.bind' (Wp.scanWhileF (Ext.refl lr) _ 0) ?_
+  intro off lr1 ⟨e1, _, hall, hle, p1, _, _⟩
+  have hnl : AllAt (· ≠ 10) lr.v.rest 0 off := hall.mono (fun x hx => by simpa using hx)
+  refine Wp.bind' (Wp.reqAtF e1 off) ?_
+  intro a lr2 ⟨e2, _, p2, _⟩
+  have i2 := h.ext e2
+  split
+  · -- the body ended with the input: consult the parked error
+    refine Wp.bind (Wp.get ?_)
+    simp only [View.checkIoError]
+    refine Wp.bind (Wp.set ?_)
+    split
+    · rename_i hio
+      refine Wp.bind (Wp.throw ⟨⟨⟨i2.size, i2.rest, i2.pos_le, i2.fault⟩, i2.online⟩, ?_⟩)
+      show f = true
+      rw [← i2.fault]; exact i2.finv.2 hio
+    · rename_i hio
+      have hio' : lr2.v.ioErr = false := by simpa using hio
+      refine (Wp.advBuf (ext_clearIoErr e2 hio') h (hle (Nat.zero_le _)) ?_ hnl).mono ?_
+      · show lr.v.pos + off ≤ lr2.v.peeked
+        omega
+      · intro _ lr3 ⟨_, i3, f3, _⟩
+        exact ⟨i3, f3⟩
+  · refine (Wp.advBuf e2 h (hle (Nat.zero_le _)) (by omega) hnl).mono ?_
+    intro _ lr3 ⟨_, i3, f3, _⟩
+    exact ⟨i3, f3⟩
+
+/-- `symbol_name`: a non-empty run of bytes other than space and newline. -/
+theorem symbolName_ok (h : Inv b f lr) : Wp E symbolName lr (TokPost b f lr) := by
+  unfold symbolName
+  refine Wp.bind' (Wp.scanWhileF (Ext.refl lr) _ 0) ?_
+  intro off lr1 ⟨e1, _, hall, hle, p1, _, _⟩
+  have hnl : AllAt (· ≠ 10) lr.v.rest 0 off := hall.mono (fun x hx => by
+    simp only [Bool.and_eq_true, bne_iff_ne, ne_eq] at hx; exact hx.1)
+  split
+  · exact Wp.pure ⟨h.ext e1, e1.fwd, by simp⟩
+  · rename_i hne
+    have hne' : off ≠ 0 := by simpa using hne
+    refine Wp.bind' (Wp.advBuf e1 h (hle (Nat.zero_le _)) (by omega) hnl) ?_
+    intro _ lr2 ⟨_, i2, f2, p2⟩
+    exact Wp.pure ⟨i2, f2, fun _ => by omega⟩
+
+/-- `eof`: accepts the end of the input only when no I/O error is parked. -/
+theorem eof_ok (h : Inv b f lr) :
+    Wp E eof lr (fun r lr1 => Inv b f lr1 ∧ Fwd lr lr1 ∧ lr1.v.pos = lr.v.pos ∧
+      (r.isSome = true → f = false ∧ lr1.v.sawEnd = true ∧ lr1.v.ioErr = false)) := by
+  unfold eof
+  refine Wp.bind' (Wp.reqByteF (Ext.refl lr)) ?_
+  intro c lr1 ⟨e1, _, _, hse⟩
+  have i1 := h.ext e1
+  split
+  · rename_i hnone
+    refine Wp.bind (Wp.get ?_)
+    split
+    · rename_i hio
+      have hio' : lr1.v.ioErr = false := by simpa using hio
+      refine Wp.pure ⟨i1, e1.fwd, e1.pos, fun _ => ?_⟩
+      have hs := hse (by simpa using hnone)
+      refine ⟨?_, hs, hio'⟩
+      cases hf : f
+      · rfl
+      · have := i1.finv.1 (by rw [i1.fault]; exact hf) hs
+        rw [this] at hio'; simp at hio'
+    · exact Wp.pure ⟨i1, e1.fwd, e1.pos, by simp⟩
+  · exact Wp.pure ⟨i1, e1.fwd, e1.pos, by simp⟩
+
+/-! ### constants and keywords -/
+
+/-- What `required_*_constant` needs of its scanner: it passes over non-newline bytes only. -/
+abbrev ScanPost (lr0 : LR) (r : Nat) (lr1 : LR) : Prop :=
+  Ext lr0 lr1 ∧ AllAt (· ≠ 10) lr0.v.rest 0 r ∧ r ≤ lr0.v.rest.length ∧ lr0.v.pos + r ≤ lr1.v.peeked
+
+theorem scanWhile_post (p : UInt8 → Bool) (hp : ∀ x, p x = true → x ≠ 10) (e : Ext lr0 lr) :
+    Wp E (PM.scan (scanWhile p · 0)) lr (ScanPost lr0) := by
+  refine (Wp.scanWhileF e p 0).mono ?_
+  intro r lr1 ⟨e1, _, hall, hle, p1, _, _⟩
+  exact ⟨e1, hall.mono hp, hle (Nat.zero_le _), by omega⟩
+
+theorem hex_ne_lf (x : UInt8) (h : isHexDigit x = true) : x ≠ 10 := by
+  intro hx; subst hx; simp [isHexDigit] at h
+
+theorem bin_ne_lf (x : UInt8) (h : isBinDigit x = true) : x ≠ 10 := by
+  intro hx; subst hx; simp [isBinDigit] at h
+
+theorem lower_ne_lf (x : UInt8) (h : isLower x = true) : x ≠ 10 := by
+  intro hx; subst hx; simp [isLower] at h
+
+theorem hexString_post (e : Ext lr0 lr) : Wp E (PM.scan (hexString · 0)) lr (ScanPost lr0) :=
+  scanWhile_post isHexDigit hex_ne_lf e
+
+theorem binaryString_post (e : Ext lr0 lr) : Wp E (PM.scan (binaryString · 0)) lr (ScanPost lr0) :=
+  scanWhile_post isBinDigit bin_ne_lf e
+
+/-- `decimal_string`: an optional `-`, then digits. -/
+theorem decimalString_post (e : Ext lr0 lr) : Wp E (PM.scan (decimalString · 0)) lr (ScanPost lr0) := by
+  apply Wp.scan
+  obtain ⟨e1, pk1, _⟩ := e.demandF 0
+  simp only [decimalString, scanWhile, runLen_eq_takeWhile, demand_rest]
+  rw [e.rest]
+  by_cases h45 : lr0.v.rest[0]? = some 45
+  · simp only [h45, beq_self_eq_true, ↓reduceIte]
+    obtain ⟨e2, pk2, _⟩ := e1.demandF (0 + 1 + ((lr0.v.rest.drop (0 + 1)).takeWhile isDigit).length)
+    have hend := takeWhile_end isDigit lr0.v.rest 1
+    have hlen : 1 ≤ lr0.v.rest.length := by
+      have := (List.getElem?_eq_some_iff.mp h45).1; omega
+    refine ⟨e2, ?_, by have := hend hlen; omega, by simp only at pk2 ⊢; omega⟩
+    refine AllAt.append (j := 1) (AllAt.single h45 (by decide)) ?_
+    have := allAt_takeWhile isDigit lr0.v.rest 1
+    simpa using this.mono digit_ne_lf
+  · have hne : (lr0.v.rest[0]? == some 45) = false := by simpa using h45
+    simp only [hne, Bool.false_eq_true, ↓reduceIte]
+    obtain ⟨e2, pk2, _⟩ := e1.demandF (0 + ((lr0.v.rest.drop 0).takeWhile isDigit).length)
+    have hend := takeWhile_end isDigit lr0.v.rest 0 (Nat.zero_le _)
+    refine ⟨e2, ?_, by omega, by simp only at pk2 ⊢; omega⟩
+    have := allAt_takeWhile isDigit lr0.v.rest 0
+    exact this.mono digit_ne_lf
+
+/-- `required_hex_constant` / `required_decimal_constant` / `required_binary_constant`. -/
+theorem requiredConstant_ok (scanner : View → Nat → Nat × View)
+    (hs : ∀ {lr0 lr : LR}, Ext lr0 lr → Wp (Err b f) (PM.scan (scanner · 0)) lr (ScanPost lr0))
+    (h : Inv b f lr) :
+    Wp (Err b f) (requiredConstant scanner) lr (fun _ lr1 => Inv b f lr1 ∧ lr.v.pos < lr1.v.pos) := by
+  unfold requiredConstant
+  refine Wp.bind' (hs (Ext.refl lr)) ?_
+  intro matched lr1 ⟨e1, hnl, hle, hp⟩
+  split
+  · exact unexpected_ok (h.ext e1)
+  · rename_i hne
+    have hne' : matched ≠ 0 := by simpa using hne
+    refine (Wp.advBuf e1 h hle hp hnl).mono ?_
+    intro _ lr2 ⟨_, i2, _, p2⟩
+    exact ⟨i2, by omega⟩
+
+theorem requiredHexConstant_ok (h : Inv b f lr) :
+    Wp (Err b f) requiredHexConstant lr (fun _ lr1 => Inv b f lr1 ∧ lr.v.pos < lr1.v.pos) :=
+  requiredConstant_ok hexString hexString_post h
+
+theorem requiredBinaryConstant_ok (h : Inv b f lr) :
+    Wp (Err b f) requiredBinaryConstant lr (fun _ lr1 => Inv b f lr1 ∧ lr.v.pos < lr1.v.pos) :=
+  requiredConstant_ok binaryString binaryString_post h
+
+theorem requiredDecimalConstant_ok (h : Inv b f lr) :
+    Wp (Err b f) requiredDecimalConstant lr (fun _ lr1 => Inv b f lr1 ∧ lr.v.pos < lr1.v.pos) :=
+  requiredConstant_ok decimalString decimalString_post h
+
+/-- Keyword tokens: scan the run of `a..z`, look it up, consume it on a match. -/
+theorem keywordToken_ok {τ : Type} (table : VBytes → Option τ) (hnil : table [] = none) (h : Inv b f lr) :
+    Wp E (keywordToken table) lr (TokPost b f lr) := by
+  unfold keywordToken
+  refine Wp.bind' (Wp.scanWhileF (Ext.refl lr) isLower 0) ?_
+  intro off lr1 ⟨e1, _, hall, hle, p1, _, _⟩
+  have hle' := hle (Nat.zero_le _)
+  refine Wp.bind (Wp.bufPrefixF e1 hle' (by omega) ?_)
+  split
+  · exact Wp.pure ⟨h.ext e1, e1.fwd, by simp⟩
+  · rename_i t ht
+    have hlen : (lr.v.rest.take off).length = off := by simp; omega
+    have hpos : 0 < off := by
+      cases hoff : off with
+      | zero => rw [hoff] at ht; simp only [List.take_zero] at ht; rw [hnil] at ht; simp at ht
+      | succ k => omega
+    rw [hlen]
+    refine Wp.bind' (Wp.adv e1 h hle' (by omega) (hall.mono lower_ne_lf)) ?_
+    intro _ lr2 ⟨i2, f2, p2, _, _⟩
+    exact Wp.pure ⟨i2, f2, fun _ => by omega⟩
+
+theorem nodeToken_ok (h : Inv b f lr) : Wp E nodeToken lr (TokPost b f lr) :=
+  keywordToken_ok Gen.Btor2.nodeToken (by decide) h
+
+theorem sortToken_ok (h : Inv b f lr) : Wp E sortToken lr (TokPost b f lr) :=
+  keywordToken_ok Gen.Btor2.sortToken (by decide) h
+
 end Btor2
 end Flussab
